@@ -478,6 +478,9 @@ def check(run):
     check_params_reach(run, A, ('pb_bss.extraction.beamformer', 'pb_bss.math.solve'))
     check_optional_truthiness(run, A, ('pb_bss.extraction.beamformer', 'pb_bss.math.solve'))
     check_explicit_reference(run, A)
+    # the helper that picks its own reference channel equals the primitive with that channel given: it ranks the columns of the matrix it returns a column of
+    from . import c11 as _c11
+    _c11.check_souden_wmwf(run, A)
     run.explanation = (
         'get_bf_vector is specialised on each of the names it accepts (constant propagation through endswith / slicing / split / `in` tests prunes the if-chain); the primitives '
         'called on the surviving path, their order, the argument slots they are chained through and the returned value are compared with the composition the name spells. '
